@@ -74,11 +74,22 @@ func init() {
 			if rng.Intn(4) == 0 {
 				add("lastProbeTime", "2024-01-01T00:00:00Z")
 			}
+			if rng.Intn(8) == 0 {
+				// a member that is not a string (custom resources are free to type their members): it matches no comparison
+				// with a string and supplies no reason / message, but must not keep the verdict away
+				kk := pick(rng, []string{"reason", "message", "condition", "observedGeneration"})
+				if _, has := m[kk]; !has || rng.Intn(2) == 0 {
+					m[kk] = pick(rng, []interface{}{int64(5), true, map[string]interface{}{"code": "x"}, []interface{}{"a"}})
+					tags = append(tags, "entry-with-a-non-string-member")
+				}
+			}
 			entries = append(entries, m)
 			// members in the order the JSON text carries them (map keys are marshalled sorted)
 			keys := []string{}
-			for kk := range m {
-				keys = append(keys, kk)
+			for kk, vv := range m {
+				if _, isStr := vv.(string); isStr {
+					keys = append(keys, kk) // the model sees the string members
+				}
 			}
 			sortStrings(keys)
 			kv := []string{}
